@@ -13,7 +13,7 @@ CONSTANTS
   Timeout = 2
   TaxNum = 1
   TaxDen = 10
-  Kinds = {"seed", "err", "bad"}
+  Kinds = {"seed", "err"}
 VIEW View
 INVARIANTS
   Inv_C18_Due
